@@ -643,7 +643,23 @@ impl Exec {
                     out.line("~ true");
                     let nn = a.bdd.nodes.len();
                     let n = self.n;
-                    out.line(&format!("# case adf n={n} nodes={nn}"));
+                    // input distribution for the evidence (computed on an object of its own)
+                    let mut extra = String::new();
+                    if n <= 7 {
+                        if let Some(parser) = self.parser() {
+                            if let Ok(st) = catch_unwind(AssertUnwindSafe(|| {
+                                let mut f = Adf::from_parser(parser);
+                                let g = f.grounded();
+                                let u = g.iter().filter(|t| !t.is_truth_value()).count();
+                                let c = f.complete().count();
+                                let s = f.stable().count();
+                                format!(" grd_undecided={u} complete={c} stable={s}")
+                            })) {
+                                extra = st;
+                            }
+                        }
+                    }
+                    out.line(&format!("# case adf n={n} nodes={nn}{extra}"));
                 }
                 true
             }
